@@ -1,5 +1,6 @@
 (* Properties_C06.v — C06: saving is deterministic and idempotent. *)
-From ElfioV Require Import Bytes Mem Stream SectionData Strings Elfio Table Loader Layout Writer Layout_proofs Segment_proofs Oneseg_proofs Oneseg_again Accessors ByName_proofs Save_twice Oneseg_writer Save_twice_oneseg.
+From ElfioV Require Import Bytes Mem Stream SectionData Strings Elfio Table Loader Layout Writer Layout_proofs Segment_proofs Oneseg_proofs Oneseg_again Accessors ByName_proofs Save_twice Oneseg_writer Save_twice_oneseg Oneseg_members Reader_proofs Writer_proofs.
+From Coq Require Import Sorted.
 Local Open Scope N_scope.
 
 (* save() is a function of the object and the stream: the model has no hidden
@@ -127,6 +128,38 @@ Theorem C06_second_save_identical_one_segment :
 Proof. exact save_twice_oneseg. Qed.
 Print Assumptions C06_second_save_identical_one_segment.
 
+(* what a load of the saved file makes of the segment.  load() rebuilds the member list from the headers alone
+   (C02_membership_rule: seg_members = the sections that member_spec accepts, in index order).  Applied to the
+   segment and the section headers as the layout above leaves them - which are the ones the file carries - the
+   rule accepts exactly the sections the segment was saved with (members: non-empty, allocated, not thread-local;
+   the other sections: thread-local, or allocated below the segment, or not allocated), and when the member list
+   was in index order the reloaded list IS the saved list - the premise the second save of the reloaded object
+   needs.  (Where the member list was not in index order the reloaded list differs: the open finding
+   member-order.) *)
+Theorem C06_reload_recovers_members_one_segment :
+  forall el h0 g bound ms,
+    let idxs := g_sections g in
+    let align := if 0 <? p_align g then p_align g else 1 in
+    let secs := el_secs el in
+    let pos0 := e_ehsize h0 + e_phentsize h0 in
+    el_hdr el = Some h0 -> el_segs el = [g] -> lenN secs < 2 ^ 16 ->
+    lenN idxs < 2 ^ 16 -> idxs <> [] -> g_offset_set g = false -> p_type g <> PT_PHDR -> NoDup idxs ->
+    Forall2 (fun i s => nth_optN secs i = Some s) idxs ms ->
+    Forall auto_member ms -> Forall (fun s => sh_addralign s <= p_align g) ms ->
+    bound <= 2 ^ 64 -> Forall (fun s => bound <= 2 ^ xw (s_cls s)) secs -> bound <= 2 ^ xw (g_cls g) ->
+    p_align g < 2 ^ 63 ->
+    p_vaddr g + pos0 + align + mbudget ms + budget secs + 16 < bound ->
+    indexed_from 0 secs -> p_type g <> PT_TLS -> Forall (fun s => sh_size s <> 0) ms ->
+    (forall j s, ~ In j idxs -> nth_optN secs j = Some s ->
+       is_tls s \/ (is_alloc s /\ sh_addr s < p_vaddr g) \/ (~ is_alloc s /\ (s_index s = 0 -> sh_offset s < pos0))) ->
+    exists el' g',
+      layout el = Ok (el', true) /\ el_segs el' = [g'] /\ g_sections g' = idxs /\ indexed_from 0 (el_secs el') /\
+      (p_vaddr g + p_memsz g' < 2 ^ 64 ->
+         (forall j, In j (seg_members g' (el_secs el')) <-> In j idxs) /\
+         (StronglySorted N.lt idxs -> seg_members g' (el_secs el') = idxs)).
+Proof. exact oneseg_layout_members. Qed.
+Print Assumptions C06_reload_recovers_members_one_segment.
+
 (* non-vacuity: ELF32, a PT_LOAD segment at 0x8048004 (align 0x1000) holding two program sections, a free section behind *)
 Definition ex1_ms (i al sz : N) : section :=
   with_index (with_flags (with_size (with_addralign (with_type (new_section C32) 1) al) sz) 2) i.
@@ -141,6 +174,17 @@ Example C06_one_segment_example :
 Proof.
   eexists. split; [vm_compute; reflexivity|]. split; [vm_compute; reflexivity|]. split; [vm_compute; reflexivity|].
   repeat constructor; vm_compute; discriminate.
+Qed.
+
+Example C06_one_segment_members_example :
+  let fs (i : N) := with_index (with_size (with_addralign (with_type (new_section C32) 1) 1) 7) i in
+  let el := with_segs (with_secs (with_hdr (empty_elfio false) (Some (new_header C32 LSB)))
+                                 [ex1_ms 0 0 0; ex1_ms 1 16 5; ex1_ms 2 4 3; fs 3]) [ex1_seg] in
+  exists el' g', layout el = Ok (el', true) /\ el_segs el' = [g'] /\ seg_members g' (el_secs el') = [1; 2] /\
+                 g_sections ex1_seg = [1; 2] /\ p_vaddr ex1_seg + p_memsz g' < 2 ^ 64 /\
+                 is_alloc (ex1_ms 0 0 0) /\ sh_addr (ex1_ms 0 0 0) < p_vaddr ex1_seg /\ ~ is_alloc (fs 3).
+Proof.
+  eexists _, _. split; [vm_compute; reflexivity|]. split; [reflexivity|]. vm_compute. repeat split; try reflexivity. discriminate.
 Qed.
 
 (* evaluation (a test, not a theorem): the one-segment object above, saved twice from its fresh state into an
